@@ -17,6 +17,16 @@ import (
 type mpw struct {
 	t *rapid.T
 	b []byte
+	// known-finding exclusions
+	noDupNonArray bool
+	noUnknownExt  bool
+}
+
+// oneIn is true roughly once in n draws. rapid's integer generators are biased
+// towards 0 and the bounds (and shrink towards 0), so the rare event sits on an
+// interior value: shrinking removes it, and its frequency is close to nominal.
+func oneIn(t *rapid.T, label string, n int) bool {
+	return rapid.IntRange(0, n-1).Draw(t, label) == n-2
 }
 
 func (w *mpw) raw(bs ...byte) { w.b = append(w.b, bs...) }
@@ -127,7 +137,7 @@ func (w *mpw) strv(s string) {
 
 // keyv encodes a map key: almost always the canonical fixstr.
 func (w *mpw) keyv(s string) {
-	if len(s) <= 31 && rapid.IntRange(0, 19).Draw(w.t, "keycanon") != 0 {
+	if len(s) <= 31 && !oneIn(w.t, "keycanon", 20) {
 		w.raw(0xa0 | byte(len(s)))
 		w.b = append(w.b, s...)
 		return
@@ -192,7 +202,11 @@ func (w *mpw) mapHdr(n int) {
 }
 
 func (w *mpw) extv() {
-	switch rapid.IntRange(0, 3).Draw(w.t, "extkind") {
+	k := rapid.IntRange(0, 3).Draw(w.t, "extkind")
+	if w.noUnknownExt {
+		k = 1
+	}
+	switch k {
 	case 0:
 		w.raw(0xd4, 5, 0x01) // fixext1, unknown type 5
 	case 1:
@@ -236,13 +250,13 @@ func (w *mpw) elem(class int) {
 		w.uint64v(rapid.Uint64Range(math.MaxInt64+1, math.MaxUint64).Draw(w.t, "biguint"))
 	case eFloat:
 		switch rapid.IntRange(0, 5).Draw(w.t, "floatkind") {
-		case 0:
+		case 4:
 			w.f64(math.NaN())
-		case 1:
+		case 5:
 			w.f64(rapid.SampledFrom([]float64{math.Inf(1), math.Inf(-1)}).Draw(w.t, "inf"))
 		case 2:
 			w.f32(rapid.Float32().Draw(w.t, "f32"))
-		case 3:
+		case 1:
 			w.f64(rapid.Float64().Draw(w.t, "f64"))
 		default:
 			w.f64(rapid.SampledFrom(c02Floats).Draw(w.t, "fedge"))
@@ -280,18 +294,19 @@ func (w *mpw) elem(class int) {
 var c02ColNames = []string{"time", "a", "b", "v", "host", "_x", "ü", "A", "tim", "x y", "value", "region"}
 
 type c02Meta struct {
-	Shape      string
-	EmptyName  bool
-	Mutation   string
-	Columns    int
-	DupColumn  bool
-	DupTop     bool
-	NonArray   bool
-	ExtraKeys  bool
-	TimeCol    bool
-	MixedCol   bool
-	NilCol     bool
-	LenMismach bool
+	Shape       string
+	EmptyName   bool
+	Mutation    string
+	Columns     int
+	DupColumn   bool
+	DupTop      bool
+	NonArray    bool
+	ExtraKeys   bool
+	TimeCol     bool
+	MixedCol    bool
+	NilCol      bool
+	LenMismach  bool
+	DupNonArray bool
 }
 
 func (w *mpw) timeColumn(n int) {
@@ -322,24 +337,24 @@ func (w *mpw) timeColumn(n int) {
 			v += d
 		}
 		// a later element from another magnitude: unit detection must stay on element 0
-		if i > 0 && rapid.IntRange(0, 9).Draw(w.t, "timejump") == 0 {
+		if i > 0 && oneIn(w.t, "timejump", 10) {
 			v = rapid.SampledFrom([]int64{1_700_000_000, 1_700_000_000_000, 1_700_000_000_000_000, 1_700_000_000_000_000_000, -5}).Draw(w.t, "timejumpv")
 		}
-		odd := rapid.IntRange(0, 39).Draw(w.t, "timeodd")
+		odd := rapid.IntRange(0, 159).Draw(w.t, "timeodd")
 		switch {
-		case odd == 0:
+		case odd == 150:
 			w.nilv()
-		case odd == 1:
+		case odd == 151:
 			w.strv("2024-01-01")
-		case odd == 2:
+		case odd == 152:
 			w.boolv(true)
-		case odd == 3:
+		case odd == 153:
 			w.uint64v(rapid.Uint64Range(math.MaxInt64+1, math.MaxUint64).Draw(w.t, "timebig"))
-		case enc == 0 || odd == 4:
+		case enc == 7 || odd == 154:
 			w.f64(float64(v) + rapid.SampledFrom([]float64{0, 0.5, 0.999}).Draw(w.t, "timefrac"))
-		case enc == 1:
+		case enc == 8:
 			w.f32(float32(v))
-		case enc == 2 && odd == 5:
+		case enc == 6 && odd >= 140:
 			w.f64(rapid.SampledFrom([]float64{math.NaN(), math.Inf(1), -1e30, 1e30}).Draw(w.t, "timeweird"))
 		default:
 			w.intv(v)
@@ -348,19 +363,27 @@ func (w *mpw) timeColumn(n int) {
 }
 
 func (w *mpw) valueColumn(n int, m *c02Meta) {
-	class := rapid.SampledFrom([]int{eInt, eInt, eInt, eFloat, eFloat, eStr, eStr, eBool, eNil, eBin, eExt, eNested, eBigUint}).Draw(w.t, "colclass")
-	nilP := rapid.SampledFrom([]int{0, 0, 2, 6}).Draw(w.t, "nilp")   // out of 10
-	mixP := rapid.SampledFrom([]int{0, 0, 0, 1, 4}).Draw(w.t, "mixp") // out of 10
+	class := rapid.SampledFrom([]int{eInt, eFloat, eStr, eBool, eInt, eFloat, eStr, eNil, eInt, eFloat, eStr, eBool}).Draw(w.t, "colclass")
+	if oneIn(w.t, "hostilecol", 12) {
+		class = rapid.SampledFrom([]int{eBigUint, eBin, eExt, eNested}).Draw(w.t, "hostileclass")
+	}
+	nilP := rapid.SampledFrom([]int{0, 0, 2, 6}).Draw(w.t, "nilp")             // out of 10
+	mixP := rapid.SampledFrom([]int{0, 0, 0, 0, 0, 0, 1, 4}).Draw(w.t, "mixp") // out of 10
 	if class == eNil {
 		m.NilCol = true
 	}
 	for i := 0; i < n; i++ {
 		c := class
-		if nilP > 0 && rapid.IntRange(0, 9).Draw(w.t, "isnil") < nilP {
+		if nilP > 0 && rapid.IntRange(0, 9).Draw(w.t, "isnil") >= 10-nilP {
 			c = eNil
 			m.NilCol = true
-		} else if mixP > 0 && rapid.IntRange(0, 9).Draw(w.t, "ismix") < mixP {
-			c = rapid.SampledFrom([]int{eInt, eInt, eFloat, eFloat, eStr, eBool, eBigUint, eBin, eNested}).Draw(w.t, "mixclass")
+		} else if mixP > 0 && rapid.IntRange(0, 9).Draw(w.t, "ismix") >= 10-mixP {
+			if class == eInt || class == eFloat {
+				// mostly the coercions both decoders accept (int<->float), sometimes a hostile one
+				c = rapid.SampledFrom([]int{eInt, eInt, eInt, eFloat, eFloat, eFloat, eFloat, eBigUint, eStr, eBool}).Draw(w.t, "mixclassnum")
+			} else {
+				c = rapid.SampledFrom([]int{eInt, eFloat, eStr, eBool, eBigUint, eBin, eNested}).Draw(w.t, "mixclass")
+			}
 			if c != class {
 				m.MixedCol = true
 			}
@@ -370,18 +393,18 @@ func (w *mpw) valueColumn(n int, m *c02Meta) {
 }
 
 func (w *mpw) columnsMap(m *c02Meta) {
-	ncols := rapid.SampledFrom([]int{0, 1, 1, 2, 2, 3, 3, 4, 5, 6}).Draw(w.t, "ncols")
-	n := rapid.SampledFrom([]int{0, 1, 1, 2, 3, 3, 4, 6, 17}).Draw(w.t, "nrows")
+	ncols := rapid.SampledFrom([]int{2, 3, 1, 4, 2, 3, 1, 5, 2, 3, 4, 6, 1, 2, 3, 0}).Draw(w.t, "ncols")
+	n := rapid.SampledFrom([]int{3, 2, 1, 4, 2, 3, 5, 1, 6, 2, 3, 4, 17, 1, 2, 0}).Draw(w.t, "nrows")
 	names := make([]string, ncols)
 	for i := range names {
 		names[i] = rapid.SampledFrom(c02ColNames).Draw(w.t, "colname")
-		if rapid.IntRange(0, 59).Draw(w.t, "emptyname") == 0 {
+		if oneIn(w.t, "emptyname", 60) {
 			names[i] = ""
 			m.EmptyName = true
 		}
 		for j := 0; j < i; j++ {
 			if names[j] == names[i] {
-				if rapid.IntRange(0, 3).Draw(w.t, "keepdup") == 0 {
+				if oneIn(w.t, "keepdup", 4) {
 					m.DupColumn = true
 				} else {
 					names[i] = names[i] + string(rune('0'+i))
@@ -390,27 +413,47 @@ func (w *mpw) columnsMap(m *c02Meta) {
 		}
 	}
 	m.Columns = ncols
-	w.mapHdr(ncols)
+	// dedicated shape: one column name appears twice, once with an array and
+	// once with a non-array value (either order)
+	dupNA := -1
+	if ncols > 0 && !w.noDupNonArray && oneIn(w.t, "dupnonarray", 25) {
+		dupNA = rapid.IntRange(0, ncols-1).Draw(w.t, "dupnonarrayidx")
+		m.DupColumn, m.NonArray, m.DupNonArray = true, true, true
+	}
+	dupFirst := dupNA >= 0 && rapid.Bool().Draw(w.t, "dupnonarrayfirst")
+	hdr := ncols
+	if dupNA >= 0 {
+		hdr++
+	}
+	w.mapHdr(hdr)
 	for i := 0; i < ncols; i++ {
-		if rapid.IntRange(0, 39).Draw(w.t, "nonstrcolkey") == 0 {
+		if i == dupNA && dupFirst {
+			w.keyv(names[i])
+			w.elem(rapid.SampledFrom([]int{eInt, eStr, eNil, eFloat}).Draw(w.t, "dupnaclass"))
+		}
+		if i-1 == dupNA && !dupFirst && dupNA >= 0 {
+			w.keyv(names[dupNA])
+			w.elem(rapid.SampledFrom([]int{eInt, eStr, eNil, eFloat}).Draw(w.t, "dupnaclass"))
+		}
+		if oneIn(w.t, "nonstrcolkey", 40) {
 			w.intv(int64(i))
 		} else {
 			w.keyv(names[i])
 		}
-		if rapid.IntRange(0, 11).Draw(w.t, "nonarray") == 0 {
+		if oneIn(w.t, "nonarray", 25) {
 			m.NonArray = true
 			w.elem(rapid.SampledFrom([]int{eInt, eStr, eNil, eNested, eExt, eFloat, eBin}).Draw(w.t, "nonarrayclass"))
 			continue
 		}
 		cn := n
-		if rapid.IntRange(0, 24).Draw(w.t, "lenmismatch") == 0 {
+		if oneIn(w.t, "lenmismatch", 50) {
 			cn = n + rapid.SampledFrom([]int{1, -1, 2}).Draw(w.t, "lendelta")
 			if cn < 0 {
 				cn = 0
 			}
 			m.LenMismach = true
 		}
-		if rapid.IntRange(0, 79).Draw(w.t, "oversize") == 0 {
+		if oneIn(w.t, "oversize", 120) {
 			// forged length header: claims far more elements than follow
 			w.raw(0xdd)
 			w.be32(rapid.SampledFrom([]uint32{1<<20 + 1, 1 << 24, math.MaxUint32, uint32(cn) + 1}).Draw(w.t, "oversizen"))
@@ -424,15 +467,19 @@ func (w *mpw) columnsMap(m *c02Meta) {
 			w.valueColumn(cn, m)
 		}
 	}
+	if dupNA >= 0 && !dupFirst && dupNA == ncols-1 {
+		w.keyv(names[dupNA])
+		w.elem(rapid.SampledFrom([]int{eInt, eStr, eNil, eFloat}).Draw(w.t, "dupnaclass"))
+	}
 }
 
 func (w *mpw) measurementValue() {
 	switch k := rapid.IntRange(0, 19).Draw(w.t, "mkind"); {
-	case k < 15:
-		w.strv(rapid.SampledFrom([]string{"cpu", "m", "Mem_2", "disk-io", "", "bad name", "a/b", "é", "cpu"}).Draw(w.t, "mname"))
-	case k < 17:
+	case k < 16:
+		w.strv(rapid.SampledFrom([]string{"cpu", "m", "Mem_2", "disk-io", "cpu", "m", "Mem_2", "disk-io", "cpu", "m", "Z9", "x-1", "", "bad name", "a/b", "é"}).Draw(w.t, "mname"))
+	case k < 18:
 		w.elem(eInt)
-	case k == 17:
+	case k == 18:
 		w.elem(eBigUint)
 	default:
 		w.elem(rapid.SampledFrom([]int{eNil, eFloat, eBool, eBin, eNested, eExt}).Draw(w.t, "mother"))
@@ -443,7 +490,7 @@ func (w *mpw) rowMapBody(m *c02Meta) [][]byte {
 	// returns encoded (key,value) pairs for a row-format item
 	var ents [][]byte
 	sub := func(f func(x *mpw)) []byte {
-		x := &mpw{t: w.t}
+		x := &mpw{t: w.t, noDupNonArray: w.noDupNonArray, noUnknownExt: w.noUnknownExt}
 		f(x)
 		return x.b
 	}
@@ -455,7 +502,10 @@ func (w *mpw) rowMapBody(m *c02Meta) [][]byte {
 		}))
 	}
 	if rapid.Bool().Draw(w.t, "rowh") {
-		ents = append(ents, sub(func(x *mpw) { x.keyv("h"); x.elem(rapid.SampledFrom([]int{eStr, eInt, eNil, eFloat}).Draw(w.t, "rowhclass")) }))
+		ents = append(ents, sub(func(x *mpw) {
+			x.keyv("h")
+			x.elem(rapid.SampledFrom([]int{eStr, eInt, eNil, eFloat}).Draw(w.t, "rowhclass"))
+		}))
 	}
 	switch rapid.IntRange(0, 5).Draw(w.t, "rowfields") {
 	case 0:
@@ -491,17 +541,17 @@ func (w *mpw) rowMapBody(m *c02Meta) [][]byte {
 func (w *mpw) columnarMapBody(m *c02Meta) [][]byte {
 	var ents [][]byte
 	sub := func(f func(x *mpw)) []byte {
-		x := &mpw{t: w.t}
+		x := &mpw{t: w.t, noDupNonArray: w.noDupNonArray, noUnknownExt: w.noUnknownExt}
 		f(x)
 		return x.b
 	}
-	if rapid.IntRange(0, 24).Draw(w.t, "nom") != 0 {
+	if !oneIn(w.t, "nom", 40) {
 		ents = append(ents, sub(func(x *mpw) { x.keyv("m"); x.measurementValue() }))
 	}
-	if rapid.IntRange(0, 24).Draw(w.t, "nocols") != 0 {
+	if !oneIn(w.t, "nocols", 40) {
 		ents = append(ents, sub(func(x *mpw) {
 			x.keyv("columns")
-			if rapid.IntRange(0, 19).Draw(w.t, "colsnotmap") == 0 {
+			if oneIn(w.t, "colsnotmap", 40) {
 				x.elem(rapid.SampledFrom([]int{eNil, eInt, eStr, eNested}).Draw(w.t, "colsother"))
 			} else {
 				x.columnsMap(m)
@@ -509,25 +559,25 @@ func (w *mpw) columnarMapBody(m *c02Meta) [][]byte {
 		}))
 	}
 	// extras
-	if rapid.IntRange(0, 3).Draw(w.t, "extras") == 0 {
+	if oneIn(w.t, "extras", 5) {
 		m.ExtraKeys = true
 		ne := rapid.IntRange(1, 3).Draw(w.t, "nextras")
 		for i := 0; i < ne; i++ {
 			ents = append(ents, sub(func(x *mpw) {
 				kind := rapid.IntRange(0, 9).Draw(w.t, "extrakind")
 				switch kind {
-				case 0: // non-string key
+				case 5: // non-string key
 					x.intv(7)
 					x.intv(1)
-				case 1: // duplicate m
+				case 6: // duplicate m
 					m.DupTop = true
 					x.keyv("m")
 					x.measurementValue()
-				case 2: // duplicate columns
+				case 7: // duplicate columns
 					m.DupTop = true
 					x.keyv("columns")
 					x.columnsMap(&c02Meta{})
-				case 3:
+				case 8:
 					x.keyv("batch")
 					x.elem(rapid.SampledFrom([]int{eNil, eInt, eNested}).Draw(w.t, "batchother"))
 				default:
@@ -547,7 +597,7 @@ func (w *mpw) writeMap(ents [][]byte) {
 		ents[i], ents[j] = ents[j], ents[i]
 	}
 	n := len(ents)
-	if rapid.IntRange(0, 49).Draw(w.t, "maplenlie") == 0 {
+	if oneIn(w.t, "maplenlie", 50) {
 		n += rapid.SampledFrom([]int{1, -1}).Draw(w.t, "maplendelta")
 		if n < 0 {
 			n = 0
@@ -560,19 +610,19 @@ func (w *mpw) writeMap(ents [][]byte) {
 }
 
 // c02GenPayload draws one request body.
-func c02GenPayload(t *rapid.T) ([]byte, *c02Meta) {
-	w := &mpw{t: t}
+func c02GenPayload(t *rapid.T, noDupNonArray, noUnknownExt bool) ([]byte, *c02Meta) {
+	w := &mpw{t: t, noDupNonArray: noDupNonArray, noUnknownExt: noUnknownExt}
 	m := &c02Meta{}
 	switch k := rapid.IntRange(0, 19).Draw(t, "shape"); {
-	case k < 13:
+	case k < 15:
 		m.Shape = "columnar"
 		w.writeMap(w.columnarMapBody(m))
-	case k < 15:
+	case k < 17:
 		m.Shape = "row"
 		w.writeMap(w.rowMapBody(m))
-	case k < 17:
+	case k < 18:
 		m.Shape = "batch"
-		ni := rapid.IntRange(0, 3).Draw(t, "nbatch")
+		ni := rapid.SampledFrom([]int{2, 1, 3, 0}).Draw(t, "nbatch")
 		w.mapHdr(1)
 		w.keyv("batch")
 		w.arrHdr(ni)
@@ -585,13 +635,13 @@ func c02GenPayload(t *rapid.T) ([]byte, *c02Meta) {
 		}
 	case k < 19:
 		m.Shape = "array"
-		ni := rapid.IntRange(0, 3).Draw(t, "narr")
+		ni := rapid.SampledFrom([]int{2, 1, 3, 0}).Draw(t, "narr")
 		w.arrHdr(ni)
 		for i := 0; i < ni; i++ {
 			switch rapid.IntRange(0, 3).Draw(t, "arritem") {
-			case 0:
+			case 3:
 				w.elem(rapid.SampledFrom([]int{eInt, eStr, eNil, eNested}).Draw(t, "arrother"))
-			case 1:
+			case 2:
 				w.writeMap(w.rowMapBody(m))
 			default:
 				w.writeMap(w.columnarMapBody(m))
@@ -602,21 +652,21 @@ func c02GenPayload(t *rapid.T) ([]byte, *c02Meta) {
 		w.elem(rapid.SampledFrom([]int{eInt, eStr, eNil, eFloat, eBool, eBin, eExt}).Draw(t, "scalar"))
 	}
 	b := w.b
-	switch k := rapid.IntRange(0, 19).Draw(t, "mutation"); {
-	case k == 0 && len(b) > 1:
+	switch k := rapid.IntRange(0, 33).Draw(t, "mutation"); {
+	case k == 29 && len(b) > 1:
 		m.Mutation = "truncate"
 		b = b[:rapid.IntRange(0, len(b)-1).Draw(t, "cut")]
-	case k == 1 && len(b) > 0:
+	case k == 30 && len(b) > 0:
 		m.Mutation = "flip"
 		b = append([]byte(nil), b...)
 		i := rapid.IntRange(0, len(b)-1).Draw(t, "flipat")
 		b[i] ^= byte(1 << rapid.IntRange(0, 7).Draw(t, "flipbit"))
-	case k == 2 && len(b) > 0:
+	case k == 31 && len(b) > 0:
 		m.Mutation = "setbyte"
 		b = append([]byte(nil), b...)
 		i := rapid.IntRange(0, len(b)-1).Draw(t, "setat")
 		b[i] = rapid.SampledFrom([]byte{0xc0, 0xc1, 0x90, 0x80, 0xcf, 0xd3, 0xc4, 0xd4, 0xa0, 0xff, 0x00}).Draw(t, "setto")
-	case k == 3:
+	case k == 32:
 		m.Mutation = "trailing"
 		b = append(append([]byte(nil), b...), rapid.SampledFrom([][]byte{{0xc0}, {0x01, 0x02}, {0xc1}, {0x81}, {0xa5, 'x'}}).Draw(t, "trail")...)
 	}
